@@ -62,18 +62,27 @@ var flattenedExterns = map[string]bool{
 }
 
 func (e *Engine) isOpaqueStruct(t types.Type) bool {
-	n, ok := t.(*types.Named)
-	if !ok {
+	st, isStruct := t.Underlying().(*types.Struct)
+	if !isStruct {
 		return false
 	}
-	if _, isStruct := n.Underlying().(*types.Struct); !isStruct {
-		return false
+	if n, ok := t.(*types.Named); ok {
+		obj := n.Obj()
+		if obj.Pkg() != nil && obj.Pkg() != e.pkg.Types && flattenedExterns[obj.Pkg().Name()+"."+obj.Name()] {
+			return false
+		}
+		if obj.Pkg() != nil && obj.Pkg() != e.pkg.Types {
+			return true
+		}
 	}
-	obj := n.Obj()
-	if obj.Pkg() == nil || obj.Pkg() == e.pkg.Types {
-		return false
+	// a package type defined over a foreign struct (type X netip.Addr): opaque too
+	for i := 0; i < st.NumFields(); i++ {
+		f := st.Field(i)
+		if !f.Exported() && f.Pkg() != nil && f.Pkg() != e.pkg.Types {
+			return true
+		}
 	}
-	return !flattenedExterns[obj.Pkg().Name()+"."+obj.Name()]
+	return false
 }
 
 func (e *Engine) shape(t types.Type) *Shape {
